@@ -324,8 +324,9 @@ def covered_writers(a, msg):
     return None
 
 
-NOISES = [[], [], [], [], [], [], [], ["between"], ["prolog"], ["text_c"], ["tail_c"], ["text_pi"], ["tail_pi"], ["between", "prolog"]]
-CHAR_NOISE = {"text_c", "tail_c", "text_pi", "tail_pi"}
+NOISES = [[], [], [], [], [], [], [], ["between"], ["prolog"], ["text_c"], ["tail_c"], ["text_pi"], ["tail_pi"], ["between", "prolog"],
+          ["text_m"], ["tail_m"], ["text_m", "tail_m", "between"], ["text_pi", "tail_c"], ["text_c", "tail_pi", "between"]]
+CHAR_NOISE = {"text_c", "tail_c", "text_pi", "tail_pi", "text_m", "tail_m"}
 
 
 def default_ok(desc, tree):
@@ -416,6 +417,8 @@ def classify_parse_all(a, o):
 
 
 def adapt_handlers(op, a):
+    if op == "c08.lxml_text":
+        return adapt_lxml_text(op, a)
     if op == "bind.parse":
         return {k: a[k] for k in ("xml", "clazz", "config", "noise", "kind", "desc", "_uni")}
     if op in ("c08.pump", "c08.iterwalk", "c08.inscope"):
@@ -472,11 +475,71 @@ def covered_handlers(a, msg):
     return None  # no listed finding of the handlers is left
 
 
+# ------------------------------------------------------------------ get_text / get_tail
+def gen_lxml_text(rng, tier):
+    """content sequences with comments / PIs as nodes: every sequence of up to 4 items over
+    {text, comment, PI, empty element, element with text} (adjacent nodes, leading and trailing ones,
+    nothing but nodes …), then random nested ones"""
+    import itertools
+
+    atoms = [{"t": "ab"}, {"m": "c"}, {"m": "pi"}, {"e": []}, {"e": [{"t": "x"}]}]
+    for n in range(0, 5):
+        for seq in itertools.product(range(len(atoms)), repeat=n):
+            items = []
+            for i, k in enumerate(seq):
+                it = copy.deepcopy(atoms[k])
+                if "t" in it:
+                    it["t"] = "t%d" % i
+                items.append(it)
+            # adjacent text items are one run for any parser: merge them
+            merged = []
+            for it in items:
+                if "t" in it and merged and "t" in merged[-1]:
+                    merged[-1] = {"t": merged[-1]["t"] + it["t"]}
+                else:
+                    merged.append(it)
+            for rc in (False, True):
+                yield {"items": merged, "remove_comments": rc}
+
+    def rand_items(depth):
+        out = []
+        for _ in range(rng.randint(0, 6)):
+            r = rng.random()
+            if r < 0.3:
+                if not (out and "t" in out[-1]):
+                    out.append({"t": rng.choice(["a", " ", "x<y", "é名", "\n  ", "1 2"])})
+            elif r < 0.7:
+                out.append({"m": rng.choice(["c", "pi"])})
+            elif depth < 3:
+                out.append({"e": rand_items(depth + 1)})
+        return out
+
+    for _ in range(n_cases(tier, 300, 6000)):
+        yield {"items": rand_items(0), "remove_comments": rng.random() < 0.5}
+
+
+def impl_lxml_text(a):
+    return D.real_lxml_text(a["items"], a["remove_comments"])
+
+
+def classify_lxml_text(a, o):
+    def adj(items):
+        r = any("m" in x and "m" in y for x, y in zip(items, items[1:]))
+        return r or any(adj(x["e"]) for x in items if "e" in x)
+
+    return ("adjacent-nodes" if adj(a["items"]) else "single-nodes") + (":no-comments" if a["remove_comments"] else ":tree")
+
+
+def adapt_lxml_text(op, a):
+    return {"xml": "<AnyElement>" + D.print_ctree(a["items"]) + "</AnyElement>", "clazz": "AnyElement", "config": {},
+            "noise": [], "kind": "valid", "desc": None}
+
+
 ORACLES = [
     Oracle("writers_agree", gen_writers_oracle, oracle_writers, covered=covered_writers,
            from_ops=("c08.native_tree", "c08.lxml_tree", "c08.tree_serializer", "c08.lxml_writer")),
     Oracle("handlers_agree", gen_handlers, oracle_handlers, covered=covered_handlers,
-           from_ops=("bind.parse", "c08.pump", "c08.iterwalk", "c08.inscope"), adapt=adapt_handlers),
+           from_ops=("c08.lxml_text", "bind.parse", "c08.pump", "c08.iterwalk", "c08.inscope"), adapt=adapt_handlers),
 ]
 
 
@@ -497,6 +560,9 @@ CORRS = [
          describe="XmlParser x {native, lxml} x {bytes, str, path, file, lxml tree/element, ET tree/element} on documents with "
                   "random declaration layouts and lexical variation: all equal and equal to the model's parse of the infoset; "
                   "RecordParser event streams of both handlers equal"),
+    Corr("c08.lxml_text", gen_lxml_text, impl_lxml_text, classify=classify_lxml_text,
+         describe="get_text / get_tail of the lxml handler on the tree libxml2 builds (comments and PIs as nodes, or comments "
+                  "dropped as by iterparse) vs model view + joinTails; all content sequences up to 4 items, then random nested"),
     Corr("c08.pump", gen_pump, impl_pump,
          describe="XmlEventHandler.parse(bytes) on a stub parser (random node-map plans) vs model toks+pump"),
     Corr("c08.iterwalk", gen_iterwalk, impl_iterwalk,
